@@ -441,6 +441,10 @@ func runC18(c *runCfg) error {
 		if _, err := replayRD(c); err != nil {
 			return err
 		}
+		// twice: what the callbacks of the first run retained must survive the traffic of the second connection
+		if err := replaySessions(c); err != nil {
+			return err
+		}
 		return replaySessions(c)
 	}
 	g := &gen{rng: c.rng}
